@@ -15,6 +15,15 @@ pub enum MarshalError {
     /// Errors occuring while validating the input
     #[error("Errors occured while validating: {0}")]
     Validation(#[from] crate::params::validation::Error),
+    /// The message would be longer than the 128 MiB the protocol allows
+    #[error("The message would be longer than the 128 MiB the protocol allows")]
+    MessageTooLong,
+    /// An array or dict would be longer than the 64 MiB the protocol allows
+    #[error("An array or dict would be longer than the 64 MiB the protocol allows")]
+    ArrayTooLong,
+    /// Values are nested deeper than the 64 levels the protocol allows
+    #[error("Values are nested deeper than the 64 levels the protocol allows")]
+    NestingTooDeep,
 }
 
 //--------
@@ -42,6 +51,15 @@ pub enum UnmarshalError {
     /// Unmarshalling a message did not use all bytes in the body
     #[error("Unmarshalling a message did not use all bytes in the body")]
     NotAllBytesUsed,
+    /// A message announced a length bigger than the 128 MiB the protocol allows
+    #[error("A message announced a length bigger than the 128 MiB the protocol allows")]
+    MessageTooLong,
+    /// An array or dict announced a length bigger than the 64 MiB the protocol allows
+    #[error("An array or dict announced a length bigger than the 64 MiB the protocol allows")]
+    ArrayTooLong,
+    /// Values were nested deeper than the 64 levels the protocol allows
+    #[error("Values were nested deeper than the 64 levels the protocol allows")]
+    NestingTooDeep,
     /// A message indicated an invalid byteorder in the header
     #[error("A message indicated an invalid byteorder in the header")]
     InvalidByteOrder,
